@@ -20,6 +20,10 @@ pub enum Case {
     Real { group: String, shape: ShapeSpec, lj: bool, cfg: OptCfg },
     /// probabilistic clause: probes worse by d at constant temperature kT
     Probe { k: usize, d: f64, kt: f64, probes: u64, loops: u64, seed: u64 },
+    /// many one- and two-step runs with different seeds: acceptance of the (last) worse
+    /// proposal conditioned on which parameter it moved and on the direction of the move
+    /// before it - the draw that decides must be independent of the draws that proposed
+    Short { k: usize, p: f64, steps: u64, first_seed: u64, runs: u64 },
 }
 
 fn viol(what: &str, c: &Case, detail: Value) -> Violation {
@@ -154,6 +158,73 @@ pub fn check(c: &Case, st: &mut Stats) {
                 go!(PackedState::from_group(s, &wg))
             }
         }
+        Case::Short { k, p, steps, first_seed, runs } => {
+            st.eval();
+            let d = -p.ln();
+            let pattern = if *steps == 1 { "W" } else { "BW" };
+            // cells: (moved coordinate of the last proposal, direction of the previous move)
+            let mut cells: std::collections::BTreeMap<(usize, i8), (u64, u64)> = Default::default();
+            for r in 0..*runs {
+                let sc = ScriptedCase {
+                    init: vec![0.; *k],
+                    bounds: vec![(-1e6, 1e6); *k],
+                    // 'B' climbs one rung above the start and 'W' goes one rung below it: in
+                    // the two-step pattern the worse proposal is two rungs below the current
+                    // state, so the rung is d/2 there
+                    script: Script::Pattern { pattern: pattern.into(), gap: if *steps == 1 { d } else { d / 2. } },
+                    cfg: OptCfg { steps: *steps, inner_steps: *steps, kt_start: 1., kt_finish: Some(1.), kt_ratio: Some(0.), max_step_size: 1e-6, seed: first_seed + r, convergence: None },
+                    via_api: true,
+                };
+                let rep = mc::run_scripted(&sc, true);
+                if rep.panicked.is_some() || rep.log.len() < *steps as usize + 1 {
+                    continue;
+                }
+                let last = &rep.log[*steps as usize].0;
+                let prev = &rep.log[*steps as usize - 1].0;
+                let moved: Vec<usize> = (0..*k).filter(|i| last[*i] != prev[*i]).collect();
+                if moved.len() != 1 {
+                    continue;
+                }
+                let dir: i8 = if *steps == 1 {
+                    0
+                } else {
+                    let first = &rep.log[1].0;
+                    let c0: Vec<usize> = (0..*k).filter(|i| first[*i] != rep.log[0].0[*i]).collect();
+                    if c0.len() != 1 {
+                        continue;
+                    }
+                    if f64::from_bits(first[c0[0]]) > f64::from_bits(rep.log[0].0[c0[0]]) {
+                        1
+                    } else {
+                        -1
+                    }
+                };
+                let accepted = match &rep.returned {
+                    Some(v) => v.iter().map(|x| x.to_bits()).collect::<Vec<_>>() == *last,
+                    None => continue,
+                };
+                let e = cells.entry((moved[0], dir)).or_insert((0, 0));
+                e.1 += 1;
+                if accepted {
+                    e.0 += 1;
+                }
+            }
+            st.add("short_runs", *runs);
+            st.nontrivial(hash64(&[*k as u64, q(*p, 1e-6), *steps, *first_seed]));
+            for ((coord, dir), (acc, n)) in cells.iter() {
+                let bound = stats::tail_bound(*acc, *n, *p);
+                if bound < 1e-12 {
+                    st.violation(viol(
+                        "acceptance-depends-on-the-proposal-it-decides",
+                        c,
+                        json!({"expected_probability": p, "moved_parameter": coord, "direction_of_previous_move": dir, "accepted": acc, "of": n, "observed_frequency": *acc as f64 / (*n).max(1) as f64, "chernoff_bound": bound,
+                               "all_cells": cells.iter().map(|(k, v)| json!({"parameter": k.0, "previous_direction": k.1, "accepted": v.0, "of": v.1})).collect::<Vec<_>>() }),
+                    ));
+                    return;
+                }
+            }
+            st.sample(|| json!({"case": c, "cells": cells.iter().map(|(k, v)| json!({"parameter": k.0, "previous_direction": k.1, "accepted": v.0, "of": v.1})).collect::<Vec<_>>() }));
+        }
         Case::Probe { k, d, kt, probes, loops, seed } => {
             st.eval();
             let sc = probe_case(*k, *d, *kt, *probes, *loops, *seed);
@@ -198,7 +269,7 @@ pub fn check(c: &Case, st: &mut Stats) {
 }
 
 pub fn run(ctx: &Ctx) {
-    ctx.set_rule("deterministic clauses on every resolved decision of scripted histories (better / equal / worse / undefined scores in adversarial orders) and of real hard/LJ states at a known constant temperature (kt_ratio = 0 or a single loop): undefined never accepted, better and equal always accepted, worse never accepted at kT = 0 nor when d/kT > 800, always when d/kT < 1e-17. Probabilistic clause: anchor/probe/sentinel scripts (anchor strictly better: always accepted; probe = anchor - d: the observation; sentinel undefined: certain rejection, so the probe's fate is read off the next vectors) at d/kT in {0.05,0.2,0.5,1,2,4,8} x kT in {1e-6,1e-3,0.1,0.5,10,1e6} x k in {4,16}, one loop and several loops; acceptance count vs Binomial(n, exp(-d/kT)) flagged only when the Chernoff/KL bound is < 1e-12; lag-1 autocorrelation of the accept sequence within 7/sqrt(n). Non-trivial = (d,kT) cells with >= 1e4 resolved probes, and runs with resolved decisions; distinct by cell/case");
+    ctx.set_rule("deterministic clauses on every resolved decision of scripted histories (better / equal / worse / undefined scores in adversarial orders) and of real hard/LJ states at a known constant temperature (kt_ratio = 0 or a single loop): undefined never accepted, better and equal always accepted, worse never accepted at kT = 0 nor when d/kT > 800, always when d/kT < 1e-17. Probabilistic clause: anchor/probe/sentinel scripts (anchor strictly better: always accepted; probe = anchor - d: the observation; sentinel undefined: certain rejection, so the probe's fate is read off the next vectors) at d/kT in {0.05,0.2,0.5,1,2,4,8} x kT in {1e-6,1e-3,0.1,0.5,10,1e6} x k in {4,16}, one loop and several loops; acceptance count vs Binomial(n, exp(-d/kT)) flagged only when the Chernoff/KL bound is < 1e-12; lag-1 autocorrelation of the accept sequence within 7/sqrt(n). Short runs: thousands of one- and two-step runs with different seeds, the acceptance of the worse proposal tallied per moved parameter and per direction of the preceding move (the deciding draw must not be correlated with the proposing draws). Non-trivial = (d,kT) cells with >= 1e4 resolved probes, and runs with resolved decisions; distinct by cell/case");
     ctx.assume("a statistical clause: deviations below the resolution of n probes are invisible; the false-alarm probability per cell is < 1e-12 by construction");
     let n_s = ctx.tier.pick(40u64, 2_000u64);
     let n_r = ctx.tier.pick(4u64, 150u64);
@@ -244,6 +315,30 @@ pub fn run(ctx: &Ctx) {
             .map(|(i, (k, d, kt, loops))| {
                 let mut st = Stats::new();
                 check(&Case::Probe { k: *k, d: *d, kt: *kt, probes, loops: *loops, seed: seed.wrapping_mul(1000).wrapping_add(i as u64) }, &mut st);
+                st
+            })
+            .collect();
+        for s in all {
+            ctx.merge(s);
+        }
+    }
+    // short runs over many seeds
+    {
+        use rayon::prelude::*;
+        let runs = ctx.tier.pick(6_000u64, 200_000u64);
+        let mut shorts = vec![];
+        for (i, k) in [2usize, 3, 6].iter().enumerate() {
+            for (j, p) in [0.2, 0.5, 0.8].iter().enumerate() {
+                for steps in [1u64, 2].iter() {
+                    shorts.push(Case::Short { k: *k, p: *p, steps: *steps, first_seed: seed.wrapping_mul(1_000_003).wrapping_add((i * 10 + j) as u64 * 10_000_000), runs });
+                }
+            }
+        }
+        let all: Vec<Stats> = shorts
+            .par_iter()
+            .map(|c| {
+                let mut st = Stats::new();
+                check(c, &mut st);
                 st
             })
             .collect();
